@@ -198,6 +198,9 @@ extern "C" int __wrap_walk_descents(cholmod_sparse *AtA_F, cholmod_dense *Atb_F,
 	long nH1_in = *nH1_;
 	G.line_searches++;
 	ctx.count("line_searches");
+	// bounded liveness of the caller: BLOCK3 makes at most 120 outer iterations with at most nvar inner
+	// steps each; a solve that asks for far more line searches than that is not making progress
+	if (G.line_searches > 500 + 130LL * (int64_t)x->nrow) Sched::abandon("line_search_count");
 	if (G.canonical_only) {
 		// reference mode for whole solves / fits: the real code, canonical schedule, on the real arguments
 		Sched::begin_canonical();
@@ -961,7 +964,10 @@ struct SchedHarness : Harness {
 			else ctx.violate("C12|no_progress|" + what + "|call_budget", "line search did not finish within its logical-step bound: " + o.detail);
 			break;
 		case SchedOutcome::MISUSE: ctx.violate("C12|pthread_misuse|" + what, o.detail); break;
-		case SchedOutcome::ABANDONED: ctx.violate("C11|no_termination|" + what + "|" + o.detail, "solver exceeded any legitimate iteration count; run abandoned"); break;
+		case SchedOutcome::ABANDONED:
+			if (o.detail == "line_search_count" && G.prop != "C11") ctx.violate("C12|no_progress|" + what + "|line_search_count", "the solve keeps asking for line searches far beyond its own iteration bound; run abandoned");
+			else ctx.violate("C11|no_termination|" + what + "|" + o.detail, "solver exceeded any legitimate iteration count; run abandoned");
+			break;
 		}
 		for (auto &r : Race::reports()) ctx.violate("C12|data_race|" + what + "|" + r.what, r.detail);
 		ctx.count("race_accesses", Race::accesses());
